@@ -135,38 +135,7 @@ func propC14(w *World, r *Report) {
 		return
 	}
 	// ---- M3: single reader
-	rd := unwrapIface(ci.probe.Call.Args[0])
-	rd2 := unwrapIface(ci.rest.Call.Args[0])
-	hdrRd := ci.hdrCall.Call.Args[0]
-	rcall, isCall := rd.(*ssa.Call)
-	r.Check(rd == rd2 && rd == hdrRd && isCall && calleeName(rcall) == "bufio.NewReader", "M3", "header and both frame reads use the same bufio.Reader", w.InstrPos(ci.probe), e.termOf(rd).String())
-	if isCall {
-		conn := rcall.Call.Args[0]
-		base := unwrapIface(conn)
-		n := 0
-		var others []string
-		if refs := base.Referrers(); refs != nil {
-			for _, rf := range *refs {
-				switch x := rf.(type) {
-				case *ssa.ChangeInterface, *ssa.MakeInterface:
-					n++
-				case *ssa.DebugRef:
-				default:
-					others = append(others, fmt.Sprintf("%T", x))
-				}
-			}
-		}
-		// the connection value itself is only wrapped once into a reader
-		nr := 0
-		for _, b := range ci.fn.Blocks {
-			for _, in := range b.Instrs {
-				if c, ok := in.(*ssa.Call); ok && calleeName(c) == "bufio.NewReader" {
-					nr++
-				}
-			}
-		}
-		r.Check(nr == 1 && len(others) == 0, "M3", "the connection is wrapped by exactly one buffered reader and not read directly", w.InstrPos(rcall), fmt.Sprintf("%d NewReader call(s); other uses of conn: %v", nr, others))
-	}
+	checkSingleBufferedReader(w, r, e, "M3", "header and both frame reads use the same bufio.Reader", ci.fn, ci.hdrCall, []*ssa.Call{ci.probe, ci.rest})
 	// ---- M2
 	pbase, plo, phi, ok1 := sliceParts(ci.probe.Call.Args[1])
 	rbase, rlo, rhi, ok2 := sliceParts(ci.rest.Call.Args[1])
@@ -628,4 +597,84 @@ func checkHandleConnMarkerCI(w *World, r *Report, ci *connInfo, rule string) {
 	r.Check(okBack && reached, rule, "after a marker the loop continues with the next probe: no second read, no frame processed", w.InstrPos(ci.resetCall), "")
 	// Reset gets the camera description
 	r.Check(len(ci.resetCall.Call.Args) == 2, rule, "Reset is called on the connection's processor", w.InstrPos(ci.resetCall), "")
+}
+
+// checkSingleBufferedReader: the stream is consumed through ONE bufio.Reader: the reader handed to the header parser is
+// a bufio.NewReader(conn), every frame read uses that same reader, no second buffered reader is made in the function
+// and the connection value is not read directly (bytes the header parse left in the buffer would be skipped and every
+// later frame boundary shifted, depending on how the stream was segmented).
+func checkSingleBufferedReader(w *World, r *Report, e *termEnv, rule, construct string, fn *ssa.Function, hdrCall *ssa.Call, reads []*ssa.Call) {
+	hdrRd := unwrapIface(hdrCall.Call.Args[0])
+	same := len(reads) > 0
+	for _, c := range reads {
+		if unwrapIface(c.Call.Args[0]) != hdrRd {
+			same = false
+		}
+	}
+	rcall, isCall := hdrRd.(*ssa.Call)
+	pos := w.InstrPos(hdrCall)
+	if len(reads) > 0 {
+		pos = w.InstrPos(reads[0])
+	}
+	var got []string
+	for _, c := range reads {
+		got = append(got, e.termOf(c.Call.Args[0]).String())
+	}
+	r.Check(same && isCall && calleeName(rcall) == "bufio.NewReader", rule, construct, pos, "header: "+e.termOf(hdrRd).String()+"; reads: "+strings.Join(got, " | "))
+	if !isCall {
+		return
+	}
+	base := unwrapIface(rcall.Call.Args[0])
+	var others []string
+	var visit func(v ssa.Value)
+	visit = func(v ssa.Value) {
+		refs := v.Referrers()
+		if refs == nil {
+			return
+		}
+		for _, rf := range *refs {
+			switch x := rf.(type) {
+			case *ssa.ChangeInterface:
+				visit(x)
+			case *ssa.MakeInterface:
+				visit(x)
+			case *ssa.DebugRef:
+			case ssa.CallInstruction:
+				cc := x.Common()
+				if x == ssa.Instruction(rcall) {
+					continue
+				}
+				if cc.IsInvoke() && cc.Value == v && cc.Method.Name() != "Read" {
+					continue // Close, deadlines, addresses: not a read
+				}
+				others = append(others, "passed to / read by "+calleeNameCI(x)+" at "+w.InstrPos(x))
+			default:
+				others = append(others, fmt.Sprintf("%T at %s", x, w.InstrPos(rf)))
+			}
+		}
+	}
+	visit(base)
+	nr := 0
+	for _, b := range fn.Blocks {
+		for _, in := range b.Instrs {
+			if c, ok := in.(*ssa.Call); ok && calleeName(c) == "bufio.NewReader" {
+				nr++
+			}
+		}
+	}
+	r.Check(nr == 1 && len(others) == 0, rule, "the connection is wrapped by exactly one buffered reader and not read directly", w.InstrPos(rcall), fmt.Sprintf("%d NewReader call(s); other uses of conn: %v", nr, others))
+}
+
+func calleeNameCI(ci ssa.CallInstruction) string {
+	if c, ok := ci.(*ssa.Call); ok {
+		return calleeName(c)
+	}
+	cc := ci.Common()
+	if cc.IsInvoke() {
+		return "invoke " + cc.Method.Name()
+	}
+	if f := cc.StaticCallee(); f != nil {
+		return f.String()
+	}
+	return "dynamic call"
 }
